@@ -65,6 +65,9 @@ def run(P, R):
             'the instance state setter stores a value without the dominating refusal of check_transition()')
     ct = P.unit('SupvisorsInstanceStatus.check_transition')
     rs = [ast.unparse(v) for v, f, nn in returns(ct) if v is not None]
+    # (an extra refusal - `return False` - can only forbid more transitions than the table)
+    if len(rs) > 1 and 'False' in rs:
+        rs = [x for x in rs if x != 'False']
     R.check(r2, rs in (['new_state in self._Transitions[self.state]'], ['new_state in self._Transitions[self._state]']),
             'check_transition is membership in the row of the current state', 'setter|check_transition', ct.loc(),
             'check_transition returns %s' % rs)
